@@ -424,3 +424,7 @@ pub fn threads_from_env() -> usize {
         .and_then(|s| s.parse().ok())
         .unwrap_or_else(|| std::thread::available_parallelism().map(|n| n.get()).unwrap_or(8).min(16))
 }
+
+pub fn shrink_tokens(s: &str) -> Vec<String> {
+    shrink::split_tokens_pub(s)
+}
